@@ -891,8 +891,8 @@ def run_r4(prog, res, cg):
                                         % (opname, name or "a function pointer",
                                            "has not been set since the instruction was dispatched" if cur == "?" else
                                            "is %d below the current top" % -cur), unit="vm.c"))
-            if b.ln and b.ln.startswith("goto:"):
-                continue
+            if b.term == "GotoStmt" and (b.ln or "").startswith("goto:") and b.ln[5:] in ("loop", "end_loop"):
+                continue            # next instruction / leaving the interpreter: handled from their own starts
             for s in b.succs:
                 if s is None or s < 0 or s == fn.exit or s == sw.id:
                     continue
